@@ -24,9 +24,11 @@ import numpy as np
 PROP = 'C19'
 TARGETS = ['T12', 'T13a', 'T13c', 'T13n', 'T13d', 'T13g', 'T19a', 'T19b', 'T19s', 'T19m', 'T19l', 'T19t', 'T19q', 'T19f',
            # the read skeletons of C05 (the read paths of Model/PMapRead.lean are written with them)
-           'T1', 'T1b', 'T4', 'T11', 'T11b', 'T11c', 'T11d', 'T11e']
+           'T1', 'T1b', 'T1c', 'T4', 'T11', 'T11b', 'T11c', 'T11d', 'T11e',
+           # C11's stack assembly (Model/Stack.lean, used by Model/PMapVolume.lean) reads these
+           'T13o', 'T13e']
 LEAN_MODULES = ['HdVerif.Props.C19']
-MODEL_MODULES = ['HdVerif.Model.PMap', 'HdVerif.Model.PMapRead']
+MODEL_MODULES = ['HdVerif.Model.PMap', 'HdVerif.Model.PMapRead', 'HdVerif.Model.PMapVolume']
 NAMESPACE = 'HdVerif.C19'
 DRIVER = 'Drivers/C19.lean'
 RULE = ('parametric maps generated from (source kind series / multi-frame / slide, N planes 1..5, M mappings 1..3 or a '
@@ -622,6 +624,29 @@ def _check_pm(ctx, idx, reqs, pending):
         if cs == 'PATIENT' and M == 1 and N >= 2 and not (d['explicit_pos'] and len({p[:2] for p in pos}) > 1):
             s6, vol = _try(im.get_volume, dtype=np.float64, apply_real_world_transform=False, apply_modality_transform=False,
                            apply_voi_transform=False, apply_presentation_lut=False, allow_missing_positions=True)
+            # ---- model (L0): `Model/PMapVolume.getVolume` = C11's stack assembly on the planes' positions + C05's frame fetch; the
+            # slices of the volume against the model's, from the cache (this object has decoded its pixel array) and on a fresh object
+            if not lazy and d['ts'] in NATIVE and not is_float:
+                sh0 = pm.SharedFunctionalGroupsSequence[0]
+                ori_ = [float(v) for v in sh0.PlaneOrientationSequence[0].ImageOrientationPatient]
+                sbs_ = sh0.PixelMeasuresSequence[0].get('SpacingBetweenSlices') if 'PixelMeasuresSequence' in sh0 else None
+                for cached_ in (True, False):
+                    if cached_:
+                        sv, vv = s6, vol
+                    else:
+                        stf, imf = _try(hd.imread, io.BytesIO(blob))
+                        if stf != 'ok':
+                            continue
+                        sv, vv = _try(imf.get_volume, dtype=np.float64, apply_real_world_transform=False, apply_modality_transform=False,
+                                      apply_voi_transform=False, apply_presentation_lut=False, allow_missing_positions=True)
+                    queries.append({'q': 'volume', 'f': 0, 'cached': cached_, 'ori': [_rat(v) for v in ori_],
+                                    'hint': None if sbs_ is None else _rat(float(sbs_)), 'allow_missing': True})
+                    if sv != 'ok':
+                        impl['answers'].append('err')
+                    else:
+                        arrv = np.asarray(vv.array)
+                        impl['answers'].append({'volume': [[int(t) for t in sl.reshape(-1)] for sl in arrv]})
+                    ctx.hist('volume_model', ('cached' if cached_ else 'fresh') + ('/ok' if sv == 'ok' else '/refused'))
             if s6 != 'ok':
                 irregular = 'regular' in str(vol) or 'spacing' in str(vol).lower() or 'volume' in str(vol).lower()
                 if irregular and not str(vol).startswith('AttributeError'):
@@ -1169,6 +1194,16 @@ def _compare_pm(ctx, case, impl, ans):
         if ia == 'err' or not m_ok:
             if (ia == 'err') == m_ok:
                 ctx.disagree('L0', dict(case, query=q), ia if ia == 'err' else 'values', ma if not m_ok else 'values', 'read: ok-vs-error')
+                return
+        elif isinstance(ia, dict) and 'volume' in ia:
+            # slices of the volume: the model's blank slices (null) are zero-filled in the array
+            ms = ma['ok'].get('slices') if isinstance(ma.get('ok'), dict) else None
+            want_v = ia['volume']
+            ok_v = isinstance(ms, list) and len(ms) == len(want_v) and all(
+                (m_ == w_) if m_ is not None else not any(w_) for m_, w_ in zip(ms, want_v))
+            if not ok_v:
+                ctx.disagree('L0', dict(case, query=q), [w_[:6] for w_ in want_v[:4]], [m_[:6] if m_ else m_ for m_ in (ms or [])[:4]],
+                             'get_volume: slices of the volume')
                 return
         elif isinstance(ia, list) and ia and isinstance(ma['ok'], list) and any(isinstance(t, (list, str)) and not _is_rat(t) for t in ia):
             # a history: one result per operation ('err', 'done', 'values', bytes of a frame, exact rationals)
